@@ -173,7 +173,7 @@ func (w *hWorld) locOf(a *hAlloc) loc {
 
 // invariants: every live caller allocation resolves to itself, is inside its block, aligned, keeps its size, and
 // no two allocations of a block (temporaries included) overlap; each block's self check is clean.
-func (w *hWorld) invariants(label string, temps []*hAlloc) {
+func (w *hWorld) invariants(label string, temps []*hAlloc, validate bool) {
 	ok := true
 	all := append(append([]*hAlloc{}, w.user...), temps...)
 	for i, a := range all {
@@ -198,7 +198,9 @@ func (w *hWorld) invariants(label string, temps []*hAlloc) {
 	}
 	total := 0
 	for _, b := range w.list.blocks {
-		ok = verifAnd(ok, b.md.Validate() == nil)
+		if validate {
+			ok = verifAnd(ok, b.md.Validate() == nil)
+		}
 		total += b.md.AllocationCount()
 	}
 	ok = verifAnd(ok, total == len(all))
@@ -283,7 +285,7 @@ func (w *hWorld) defragRun(ctx *MetadataDefragContext[hAlloc], tag string, maxPa
 		if !okSrc {
 			return all
 		}
-		w.invariants("C07"+tag+"/source-and-destination-reserved-between-collect-and-complete", temps)
+		w.invariants("C07"+tag+"/source-and-destination-reserved-between-collect-and-complete", temps, verifTier() == 1)
 		verifAssert("C15"+tag+"/every-move-goes-to-an-earlier-block-or-lower-offset", fwd)
 		verifAssert("C15"+tag+"/pass-byte-limit-respected", sumBytes <= maxBytes)
 		verifAssert("C15"+tag+"/pass-allocation-limit-respected", len(moves) <= maxAllocs)
@@ -338,7 +340,7 @@ func (w *hWorld) defragRun(ctx *MetadataDefragContext[hAlloc], tag string, maxPa
 			}
 		}
 		w.user = nu
-		w.invariants("C07"+tag+"/invariants-at-pass-boundary", nil)
+		w.invariants("C07"+tag+"/invariants-at-pass-boundary", nil, true)
 		// outcome per allocation
 		okOut := true
 		for i, u := range usersBefore {
@@ -416,14 +418,14 @@ func Verif_Defrag_Run(cfg int) {
 		if thorough {
 			w.recipe([]int{3, 2}, 3)
 		} else {
-			w.recipe([]int{2, 2}, 2)
+			w.recipe([]int{2, 1}, 2)
 		}
 	default:
 		w = newWorld(3, 256)
 		if thorough {
 			w.recipe([]int{2, 2, 2}, 3)
 		} else {
-			w.recipe([]int{2, 1, 1}, 2)
+			w.recipe([]int{1, 1, 1}, 2)
 		}
 	}
 	ctx := &MetadataDefragContext[hAlloc]{Algorithm: alg, Handler: hHandler, BlockList: w.list}
@@ -466,7 +468,10 @@ func Verif_Defrag_Reuse(cfg int) {
 	}
 	wa, wb := build(), build()
 	// identical contents: the same symbolic sizes are used for both worlds
-	n0, n1 := 2, 2
+	n0, n1 := 2, 1
+	if verifTier() == 1 {
+		n1 = 2
+	}
 	sizes := make([]int, n0+n1)
 	for i := range sizes {
 		sizes[i] = verifNondetInt("size")
